@@ -57,15 +57,81 @@ class _O(object):
     def __init__(self, **kw): self.__dict__.update(kw)
     def __repr__(self): return '_O(%r)' % (self.__dict__,)
 
+class _T(object):
+    """subscriptable with any key (grammar part): t_[k] -> '<tag>[k]'"""
+    def __init__(self, tag): self.tag = tag
+    def __getitem__(self, k): return '%s[%s]' % (self.tag, k)
+    def __repr__(self): return '_T(%r)' % self.tag
+
 def make_scope(explicit):
     """(globals, locals) of the caller. Local `x` shadows a global `x`; `f` and `o` are global only."""
     if not explicit:
-        g = dict(x='global x (must be shadowed)', f=lambda a, b: '%s|%s' % (a, b), o=_O(y=_O(z='oyz')))
+        g = dict(x='global x (must be shadowed)', f=lambda a, b: '%s|%s' % (a, b), o=_O(y=_O(z='oyz', w=lambda a: 'w(%s)' % (a,))),
+                 g2=lambda a: 'g(%s)' % (a,), t_=_T('t'))
         l = dict(x=7, d={'k': 'dk'}, quoted='Q')
     else:
-        g = dict(x='explicit global x (must be shadowed)', f=lambda a, b: '%s/%s' % (b, a), o=_O(y=_O(z='OYZ')))
+        g = dict(x='explicit global x (must be shadowed)', f=lambda a, b: '%s/%s' % (b, a), o=_O(y=_O(z='OYZ', w=lambda a: 'W<%s>' % (a,))),
+                 g2=lambda a: 'G<%s>' % (a,), t_=_T('T'))
         l = dict(x=70, d={'k': 'DK'}, quoted='QQ')
     return g, l
+
+# ---- the grammar of $-expressions (enumerated separately from the fragment sweep) ---------------------
+# expression := wrapper(wrapper(... atom ...)) + trailer, nesting depth 1..3; every wrapper brings one bracket pair
+# (two for the tuple-and-subscript form), so depth n gives n-fold nesting of the same AND of different bracket kinds,
+# bracket characters inside string literals before / after / as the nested argument, calls through an attribute chain,
+# an attribute chain after the closing bracket and the explicit terminator ';'. The functions / the subscriptable of
+# the scope accept any argument, so nearly every expression evaluates to a str or int.
+G_ATOMS = ('x', '1', "')'", '"]"')
+G_WRAPS = ('g2(%s)', "f(%s,')')", "f('(',%s)", 't_[%s]', '(%s)', '(%s,1)[0]', 'o.y.w(%s)')
+G_TRAILERS = ('', ';', '.__class__.__name__')
+GRAMMAR = {}        # fragment name -> dict(src=python source, trailer=, depth=, same=max nesting of one bracket kind)
+
+def same_kind_nesting(src):
+    """max number of simultaneously open brackets of one kind (string literals skipped)"""
+    depth = {'(': 0, '[': 0}; best, i = 0, 0
+    close = {')': '(', ']': '['}
+    while i < len(src):
+        c = src[i]
+        if c in '\'"': i = _skip_string(src, i); continue
+        if c in depth:
+            depth[c] += 1; best = max(best, depth[c])
+        elif c in close: depth[close[c]] -= 1
+        i += 1
+    return best
+
+def _g_build(ws, atom):
+    src = atom
+    for w in reversed(ws): src = G_WRAPS[w] % src
+    return src
+
+def register_grammar(maxdepth=3):
+    """registers '$<expr><trailer>' and its parenthesised embedding '($<expr><trailer>)' as fragments (RAW/ITEM, not
+    NAMES: the sweep alphabet is unchanged) and their simpler alternatives for shrinking"""
+    import itertools
+    for d in range(1, maxdepth + 1):
+        for ws in itertools.product(range(len(G_WRAPS)), repeat=d):
+            for atom in G_ATOMS:
+                src = _g_build(ws, atom)
+                for tr in G_TRAILERS:
+                    name = '$' + src + tr
+                    GRAMMAR[name] = dict(src=src + (tr if tr != ';' else ''), trailer=tr, depth=d, same=same_kind_nesting(src))
+                    RAW[name] = ITEM[name] = name
+                    RAW['(' + name + ')'] = ITEM['(' + name + ')'] = '(' + name + ')'
+                    alts = []
+                    if tr: alts.append('$' + src)
+                    for i in range(d):
+                        rest = ws[:i] + ws[i + 1:]
+                        if rest: alts.append('$' + _g_build(rest, atom) + tr)
+                    for i, w in enumerate(ws):      # the canonical call / subscript instead of a richer wrapper
+                        for c in (0, 3):
+                            if w != c and (c == 0 or w == 5): alts.append('$' + _g_build(ws[:i] + (c,) + ws[i + 1:], atom) + tr)
+                    if atom != 'x': alts.append('$' + _g_build(ws, 'x') + tr)
+                    if d == 1 and atom == 'x' and not tr: alts.append('$x')
+                    SIMPLER[name] = alts
+                    SIMPLER['(' + name + ')'] = [name]
+
+def grammar_names(maxdepth):
+    return sorted(n for n, m in GRAMMAR.items() if m['depth'] <= maxdepth)
 
 # ---- reference substituter -------------------------------------------------------------------------
 class Malformed(Exception): pass
@@ -212,3 +278,5 @@ def canon(v):
     if isinstance(v, dict): return {str(k): canon(i) for k, i in sorted(v.items(), key=lambda kv: str(kv[0]))}
     if v is None or isinstance(v, (bool, int, str)): return v
     return repr(v)
+
+register_grammar()
